@@ -442,6 +442,17 @@ def install_guarded_cmp(rec):
                                  % (sv, name, other._value, d, g, cls.precision, cls.guard, res))
                     if self._value != sv:
                         rec.fail('guarded:%s:operand-mutated' % name, 'comparison mutated an operand')
+                    # the comparison statistics are, by their own definition, the extremes over every comparison made: the largest
+                    # difference that counted as equal (maxDiff) and the smallest that did not (minDiff); the claim "statistics
+                    # clean => same count as exact arithmetic" rests on no comparison escaping them
+                    ad = abs(d)
+                    if ad < g:
+                        if cls.maxDiff < ad:
+                            rec.fail('guarded:statistics-miss-a-comparison:%s' % name, '%s on raw %s, %s (diff %s < geps %s) left maxDiff at %s'
+                                     % (name, sv, other._value, d, g, cls.maxDiff))
+                    elif cls.minDiff > ad:
+                        rec.fail('guarded:statistics-miss-a-comparison:%s' % name, '%s on raw %s, %s (diff %s >= geps %s) left minDiff at %s'
+                                 % (name, sv, other._value, d, g, cls.minDiff))
             except Exception as e:      # pylint: disable=broad-except
                 rec.fail('guarded:%s:contract-error' % name, repr(e))
             return res
